@@ -226,6 +226,14 @@ def runJar (pol : Policy) (now : Nat) : List JarOp → JarState → List JarObs
     let r := stepJar pol now st op
     r.1 :: runJar pol now ops r.2
 
+/-- a history in which every operation happens at its own time (expiry happens *between* the
+    operations): `runJar pol now ops = runJarT pol (ops.map (now, ·))` -/
+def runJarT (pol : Policy) : List (Nat × JarOp) → JarState → List JarObs
+  | [], _ => []
+  | (now, op) :: ops, st =>
+    let r := stepJar pol now st op
+    r.1 :: runJarT pol ops r.2
+
 /-- the pool policy the driver executes with (most recently released object first) -/
 def lifo : Policy := fun _ pool => if pool.isEmpty then none else some 0
 
